@@ -686,15 +686,31 @@ cast_node_set_to_string(struct lyxp_set *set, char **str)
 static long double
 cast_string_to_number(const char *str)
 {
-    long double num;
-    char *ptr;
+    const char *ptr, *num_start;
+    ly_bool digits = 0;
 
-    errno = 0;
-    num = strtold(str, &ptr);
-    if (errno || *ptr || (ptr == str)) {
-        num = NAN;
+    /* XPath 1.0 number(): optional whitespace, optional '-', Number, optional whitespace; anything else is NaN,
+     * also what only strtold() accepts (exponents, '+', hexadecimal numbers, "inf", "nan") */
+    for (ptr = str; is_xmlws(*ptr); ++ptr) {}
+    num_start = ptr;
+    if (*ptr == '-') {
+        ++ptr;
     }
-    return num;
+    for ( ; isdigit(*ptr); ++ptr) {
+        digits = 1;
+    }
+    if (*ptr == '.') {
+        for (++ptr; isdigit(*ptr); ++ptr) {
+            digits = 1;
+        }
+    }
+    for ( ; is_xmlws(*ptr); ++ptr) {}
+    if (!digits || *ptr) {
+        return NAN;
+    }
+
+    /* the syntax is that of a decimal constant, too large values become infinities and too small ones zeros */
+    return strtold(num_start, NULL);
 }
 
 /**
